@@ -77,6 +77,12 @@ fn inspect_local_variables<'v>(
         .find_map(to_scope_names_by_local_slot_id)?;
     let mut res = SmallMap::new();
     for (slot, name) in names.iter().enumerate() {
+        // The variable of a comprehension has a slot of its own, after the function's locals,
+        // possibly under the name of one of them. Between statements (where a debugger looks)
+        // the name denotes the function's local.
+        if res.contains_key(name.as_str()) {
+            continue;
+        }
         if let Some(v) = eval
             .current_frame
             .get_slot_slow(LocalSlotIdCapturedOrNot(slot as u32))
@@ -111,6 +117,9 @@ fn inspect_frame_variables<'v>(
 
     let mut res = SmallMap::with_capacity(names.len());
     for (slot, name) in names.iter().enumerate() {
+        if res.contains_key(name.as_str()) {
+            continue;
+        }
         if let Some(v) = frame_ptr
             .get_slot_slow(LocalSlotIdCapturedOrNot(slot as u32))
             .and_then(unwrap_captured)
